@@ -69,6 +69,8 @@ THEOREMS = [
     "Pyribs.C18.sep_cov_nonneg",
     "Pyribs.C18.sep_cov_pos",
     "Pyribs.C18.sep_core_cov_nonneg",
+    "Pyribs.C18.cma_cmu_clamped",
+    "Pyribs.C18.sep_cmu_clamped",
     # T18.6
     "Pyribs.C18.sigma_pos_real",
     "Pyribs.C18.sigma_pos",
@@ -99,6 +101,7 @@ THEOREMS = [
     "Pyribs.C18.nonvacuous_resample",
     "Pyribs.C18.nonvacuous_tell",
     "Pyribs.C18.nonvacuous_adam",
+    "Pyribs.C18.nonvacuous_clamp",
 ]
 RULE = ("one stratum per native strategy (CMA-ES, sep-CMA-ES, LM-MA-ES, OpenAI-ES non-mirror, OpenAI-ES mirror): "
         "random dimension 2..6 (thorough ..8), batch, dtype, bounds layout (none / box / one-sided mix; scalar bounds in "
@@ -110,8 +113,11 @@ RULE = ("one stratum per native strategy (CMA-ES, sep-CMA-ES, LM-MA-ES, OpenAI-E
         "in 30 % of the cases to two optimizers) and to 70-75 % of the later resets as the identical object, it is "
         "checksummed around every call, and after each reset all public state must equal a fresh instance built from an "
         "independent copy of the original values before stepping continues; plus gradient-"
-        "optimizer histories (dyadic exact stream and rounded stream, with and without L2 term, with resets) and pycma "
-        "wrapper histories. A strategy case is non-trivial when some iteration selects >= 2 parents under a non-identity "
+        "optimizer histories (dyadic exact stream and rounded stream, L2 coefficient 0 .. 10 with theta away from the "
+        "origin, with resets), CMA-ES / sep-CMA-ES in dimension 1..3 with batches and parent counts up to 124 under the "
+        "true ranks of a quadratic centred at the start point (the region where cmu reaches its clamp 1 - c1; learning "
+        "rates compared with the model, stored covariance checked for symmetry / PSD), pycma wrapper histories and "
+        "pycma convergence runs with ranking values of every documented layout. A strategy case is non-trivial when some iteration selects >= 2 parents under a non-identity "
         "permutation; a gradient case when >= 2 non-zero gradients are stepped; counted once per distinct op list")
 PARTIAL = [
     "sampling distribution: only the deterministic identity 'row i = mean + sigma*T*z_i for the recorded/replayed "
@@ -119,7 +125,13 @@ PARTIAL = [
     "convergence on a convex quadratic: run as labelled tests in the thorough tier (coverage.tests), no theorem",
     "finiteness of sigma: sigma*exp(x) is a positive real for every history (T18.6); that it stays inside the float "
     "range under adversarial unbounded histories is not proved (checked on every driven iteration)",
-    "pycma wrapper: bounds, finiteness, dtype and reset only; pycma's internal update is not modelled",
+    "pycma wrapper: bounds, finiteness, dtype, reset and convergence on a convex quadratic under every layout of the "
+    "ranking values ((n,), (n,1), several columns) are checked on the implementation; pycma's internal update is not "
+    "modelled",
+    "'zero parents change nothing' is read as the mean / step-size / path / covariance clause: LM-MA-ES advances its "
+    "generation counter on a zero-parent tell (T18.3 lm_zero_parents says so, CMA-ES likewise advances current_eval), "
+    "and the number of direction vectors applied by the next ask is min(current_gens, n_vectors), so the sampling "
+    "scale can change after a zero-parent tell although mean, sigma and paths do not",
     "CMA-ES C^(-1/2) and the eigensystem are taken from the implementation's public state as parameters of the "
     "update; their consistency with the symmetrised covariance is checked numerically whenever a refresh is due",
 ]
@@ -132,6 +144,9 @@ ASSUMPTIONS = [
     "hsig test or bound test falls inside the tie zone around the discontinuity are skipped and counted",
     "between iterations the model is re-synchronised on the implementation's public state (moments of Adam, which "
     "are private, are threaded through the model instead, rounded to float64 each step)",
+    "gradient optimizers are driven with float start points (emitters always pass float arrays); AdamOpt with an "
+    "integer theta0 raises UFuncTypeError at step() (in-place float update of an integer array) - recorded, not "
+    "claimed as a violation",
     "histories follow the documented protocol: check_stop() is consulted after every tell and the optimizer is reset "
     "when it says stop (a CMA-ES driven on past condition number 1e14 reaches a zero eigenvalue and NaN paths); "
     "bounded histories end when the estimated acceptance rate of a row falls below 3 % (resampling would not return)",
@@ -764,6 +779,11 @@ def es_iteration(case, es, shadow, op, where, kind, dt, tol, dim, batch, lb, ub,
     # ---- tell
     if op.get("perm") is not None:
         perm = [int(i) for i in op["perm"]]
+    elif op.get("quad") is not None:
+        # true ranks of a convex quadratic centred at `quad` (a contracting history when the centre is the mean)
+        d2 = np.sum((sols.astype(np.float64) - np.array(op["quad"], dtype=np.float64)[None])**2, axis=1)
+        perm = [int(i) for i in np.argsort(d2, kind="stable")]
+        count(f"{kind}:quadratic-rankings")
     else:
         # ranking by a linear objective along a fixed direction (drives the evolution paths one way)
         perm = [int(i) for i in np.argsort(-(sols.astype(np.float64) @ np.array(op["dir"], dtype=np.float64)),
@@ -919,6 +939,9 @@ def cma_like_tell(case, es, kind, before, sols, recorded, perm, mu, where, tol, 
     # coefficient hypotheses of T18.5, checked numerically on every update
     decay, cmu = Fraction(r["decay"]), Fraction(r["cmu"])
     if kind in ("cma", "sep"):
+        f = check_strat_params(es, kind, dim, mu, r, where)
+        if f:
+            return f
         if decay < 0 or cmu < 0:
             return fail("corr", where, f"covariance coefficients negative in the model: decay={float(decay)} cmu={float(cmu)}")
         if kind == "sep" and decay <= 0:
@@ -970,6 +993,33 @@ def cma_like_tell(case, es, kind, before, sols, recorded, perm, mu, where, tol, 
     msg = close(f"{kind}.sigma", [after["sigma"]], pv(r["sigma"]), after["sigma"] * rel, tol)
     if msg:
         return fail("corr", where, msg)
+    return None
+
+
+def check_strat_params(es, kind, dim, mu, r, where):
+    """learning rates of the covariance update, read from the implementation's own `_calc_strat_params` when it
+    exists with the known signature: the old covariance must keep a non-negative coefficient (1 - c1 - cmu >= 0,
+    the hypothesis of T18.5) and c1 / cmu must be the model's"""
+    fn = getattr(es, "_calc_strat_params", None)
+    if fn is None:
+        return None
+    try:
+        out = fn(mu) if kind == "cma" else fn(dim, mu)
+        c1, cmu = float(out[4]), float(out[5])
+    except Exception:  # pylint: disable=broad-except
+        count(f"{kind}:strat-params-not-readable")
+        return None
+    count(f"{kind}:strat-params-compared")
+    if cmu >= 1 - c1:
+        count(f"{kind}:cmu-clamp-active")
+    if 1 - c1 - cmu < -TOL[F64] or cmu < 0 or c1 < 0:
+        return fail("oracle", where, f"learning rates c1={c1}, cmu={cmu} (dim {dim}, {mu} parents): the coefficient of the "
+                    f"old covariance 1 - c1 - cmu = {1 - c1 - cmu} is negative, the update cannot stay positive "
+                    f"semi-definite")
+    for name, impl, mod in (("c1", c1, r["c1"]), ("cmu", cmu, r["cmu"])):
+        msg = close(f"{kind}.{name}", [impl], [float(Fraction(mod))], 1.0, TOL[F64])
+        if msg:
+            return fail("corr", where, "learning rate " + msg)
     return None
 
 
@@ -1322,6 +1372,8 @@ def run_pycma_case(case):
         if op.get("vdim", 1) == 2:
             vals2 = np.stack([vals, vals], axis=1)
             es.tell(np.argsort(-vals), vals2, int(op["mu"]))
+        elif op.get("vdim", 1) == 3:
+            es.tell(np.argsort(-vals), vals[:, None], int(op["mu"]))
         else:
             es.tell(np.argsort(-vals), vals, int(op["mu"]))
         f = start.changed(where, "tell")
@@ -1430,7 +1482,7 @@ def gen_es(kind, mirror=False, quick=True):
             case["mirror"] = mirror
             case["adam"] = {"lr": rng.choice([0.001, 0.01, 0.05, 0.125]), "beta1": rng.choice([0.9, 0.5, 0.0, 0.75]),
                             "beta2": rng.choice([0.999, 0.9, 0.5]), "epsilon": rng.choice([1e-8, 1e-3, 0.125]),
-                            "l2_coeff": rng.choice([0.0, 0.0, 0.005, 0.1])}
+                            "l2_coeff": rng.choice([0.0, 0.0, 0.005, 0.1, 1.0])}
         return case
     return gen
 
@@ -1470,7 +1522,7 @@ def gen_grad(quick=True):
         if kind == "adam":
             case["adam"] = {"lr": case["lr"], "beta1": rng.choice([0.9, 0.5, 0.0, 0.99]),
                             "beta2": rng.choice([0.999, 0.9, 0.5, 0.0]), "epsilon": rng.choice([1e-8, 1e-3, 0.5]),
-                            "l2_coeff": rng.choice([0.0, 0.0, 0.01, 0.5])}
+                            "l2_coeff": rng.choice([0.0, 0.01, 0.5, 2.0, 10.0])}
         return case
     return gen
 
@@ -1487,7 +1539,7 @@ def gen_pycma(quick=True):
         ops = gen_perm_ops(rng, batch, n_iter, dim, 1, reset_p=0.12)
         for op in ops:
             if op["op"] == "iter":
-                op["vdim"] = rng.choice([1, 1, 2])
+                op["vdim"] = rng.choice([1, 2, 2, 3])
             else:
                 # keep the new mean inside the box
                 op["x0"] = list(x0)
@@ -1498,9 +1550,107 @@ def gen_pycma(quick=True):
     return gen
 
 
+def gen_lowdim(quick=True):
+    """CMA-ES / sep-CMA-ES in dimension 1..3 with batches and parent counts up to ~120: the region where the
+    rank-mu learning rate reaches its clamp 1 - c1 (>= 19 parents in dim 1, 32 in dim 2, 50 in dim 3); rankings are
+    the true ranks of a quadratic centred at the start point (contracting), mixed with random permutations"""
+    def gen(rng):
+        dim = rng.choice([1, 1, 2, 2, 3])
+        need = {1: 19, 2: 32, 3: 50}[dim]
+        batch = rng.randint(2 * need, 124) if rng.random() < 0.8 else rng.randint(need, 124)
+        kind = rng.choice(["cma", "cma", "sep"])
+        sigma0 = rng.choice([0.25, 0.5, 1.0, 2.0])
+        x0 = [dyadic(rng, -2, 2, 8) for _ in range(dim)]
+        n_iter = rng.randint(1, 3) if quick else rng.randint(2, 10)
+        ops = []
+        for _ in range(n_iter):
+            r = rng.random()
+            mu = batch // 2 if r < 0.5 else (batch if r < 0.6 else rng.randint(need, batch))
+            if rng.random() < 0.8:
+                ops.append({"op": "iter", "perm": None, "quad": x0, "mu": mu, "vseed": rng.randrange(1 << 30)})
+            else:
+                perm = list(range(batch))
+                rng.shuffle(perm)
+                ops.append({"op": "iter", "perm": perm, "mu": mu, "vseed": rng.randrange(1 << 30)})
+        return {"kind": kind, "dim": dim, "batch": batch, "dtype": F64 if rng.random() < 0.85 else F32,
+                "seed": rng.randrange(1 << 31), "sigma0": sigma0, "x0": x0, "lb": [None] * dim, "ub": [None] * dim,
+                "layout": "none", "x0_layout": "exact", "ops": ops}
+    return gen
+
+
+def gen_pycma_converge(quick=True):
+    """pycma wrapper on a convex quadratic, fed the true order with ranking values in every documented layout"""
+    def gen(rng):
+        dim = rng.randint(3, 6)
+        batch = rng.randint(8, 14)
+        opt = [dyadic(rng, -3, 3, 4) for _ in range(dim)]
+        x0 = [dyadic(rng, -4, 4, 4) for _ in range(dim)]
+        if all(abs(a - b) < 1 for a, b in zip(opt, x0)):
+            x0[0] = opt[0] + 3.0 if opt[0] < 0 else opt[0] - 3.0
+        bounded = rng.random() < 0.5
+        return {"kind": "pycma-converge", "dim": dim, "batch": batch, "seed": rng.randrange(1 << 31), "sigma0": 1.0,
+                "x0": x0, "opt": opt, "coef": [rng.choice([1.0, 2.0, 4.0]) for _ in range(dim)],
+                "bounds": 5.0 if bounded else None, "values": rng.choice(["1d", "col", "2col", "2col", "3col"]),
+                "parents": rng.choice(["half", "half", "all", "few"]), "ops": [{"op": "run", "gens": 150}]}
+    return gen
+
+
+def run_pycma_converge(case):
+    """The wrapper is held to convergence: with the true order of a convex quadratic (whatever the layout of the
+    ranking values: (n,), (n,1), or several columns as the two-stage rankers produce) the mean must approach the
+    optimum."""
+    from ribs.emitters.opt import PyCMAEvolutionStrategy
+    warnings.simplefilter("ignore")
+    dim, batch = case["dim"], case["batch"]
+    opt = np.array(case["opt"], dtype=np.float64)
+    coef = np.array(case["coef"], dtype=np.float64)
+    b = case.get("bounds")
+    es = PyCMAEvolutionStrategy(sigma0=case["sigma0"], solution_dim=dim, batch_size=batch, seed=case["seed"],
+                                lower_bounds=None if b is None else [-b] * dim,
+                                upper_bounds=None if b is None else [b] * dim)
+    x0 = np.array(case["x0"], dtype=np.float64)
+    es.reset(x0)
+    d0 = float(np.linalg.norm(x0 - opt))
+    gens = int(case["ops"][0]["gens"]) if case["ops"] else 150
+    dist = d0
+    for g in range(gens):
+        X = np.array(es.ask(), dtype=np.float64)
+        if X.shape != (batch, dim) or not np.all(np.isfinite(X)):
+            return fail("oracle", f"generation {g}", f"ask returned shape {X.shape} / non-finite values")
+        if b is not None and not in_bounds(X, -b, b):
+            return fail("oracle", f"generation {g}", "solution out of bounds")
+        f = -np.sum(coef[None] * (X - opt[None])**2, axis=1)  # objective (higher is better)
+        idx = np.argsort(-f, kind="stable")
+        layout = case["values"]
+        if layout == "1d":
+            vals = f
+        elif layout == "col":
+            vals = f[:, None]
+        elif layout == "2col":
+            vals = np.stack([np.ones(batch), f], axis=1)  # e.g. [status, objective] of a two-stage ranker
+        else:
+            vals = np.stack([np.ones(batch), f, -f], axis=1)
+        mu = {"half": batch // 2, "all": batch, "few": 2}[case["parents"]]
+        es.tell(idx, vals, mu)
+        dist = float(np.linalg.norm(X[idx[0]] - opt))
+        if dist < 1e-4 * d0:
+            break
+    count(f"pycma-converge:values-{case['values']}")
+    stat("pycma-converge.distance-ratio-over-threshold", (dist / d0) / 0.02)
+    if dist >= 0.02 * d0:
+        return fail("oracle", f"after {gens} generations", f"pycma wrapper fed the true order of a convex quadratic with "
+                    f"ranking values of layout '{case['values']}' did not approach the optimum: best solution at "
+                    f"distance {dist:.3g} (start {d0:.3g})")
+    return None
+
+
+def nontrivial_any(case):
+    return True
+
+
 def nontrivial_es(case):
     for op in case["ops"]:
-        if op["op"] == "iter" and op["mu"] >= 2 and (op.get("perm") is None or op["perm"] != sorted(op["perm"])):
+        if op["op"] == "iter" and op["mu"] >= 2 and (op.get("perm") is None or op["perm"] != sorted(op["perm"])):  # noqa
             return True
     return False
 
@@ -1533,14 +1683,15 @@ def convergence_tests():
         ("PyCMAEvolutionStrategy", 6, lambda d: PyCMAEvolutionStrategy(0.5, d, 12, seed=16), 400,
          lambda e: e._es.mean),  # pylint: disable=protected-access
     ]
-    for name, dim, mk, iters, get_mean in specs:
+    for name, dim, mk, iters, get_mean, vlayout in [sp + (vl,) for sp in specs for vl in ("1-D", "2-column")]:
         t0 = time.time()
         opt = np.linspace(-1.0, 1.5, dim)
         coef = np.linspace(1.0, 4.0, dim)
         x0 = np.zeros(dim)
         obj = lambda X, c=coef, o=opt: -np.sum(c[None] * (X - o[None])**2, axis=1)  # concave objective = convex loss
         d0 = float(np.linalg.norm(x0 - opt))
-        label = f"convergence on a convex quadratic (dim {dim}, true ranks, batch//2 parents): {name}"
+        label = (f"convergence on a convex quadratic (dim {dim}, true ranks, batch//2 parents, {vlayout} ranking "
+                 f"values): {name}")
         try:
             es = mk(dim)
             es.reset(x0)
@@ -1549,11 +1700,11 @@ def convergence_tests():
                 X = np.array(es.ask())
                 v = obj(X.astype(np.float64))
                 idx = np.argsort(-v)
-                es.tell(idx, v, len(idx) // 2)
+                es.tell(idx, v if vlayout == "1-D" else np.stack([np.ones(len(v)), v], axis=1), len(idx) // 2)
                 best = float(np.linalg.norm(np.asarray(get_mean(es), dtype=np.float64) - opt))
                 if best < 1e-3 * d0:
                     break
-                if es.check_stop(v[idx]):
+                if es.check_stop(v[idx] if vlayout == "1-D" else np.stack([np.ones(len(v)), v[idx]], axis=1)):
                     break
             out.append({"test": label, "passed": bool(best < 0.05 * d0), "distance_ratio": best / d0,
                         "iterations": used, "wall_s": round(time.time() - t0, 2)})
@@ -1574,6 +1725,8 @@ def run_case(case):
         return run_grad_case(case)
     if kind == "pycma":
         return run_pycma_case(case)
+    if kind == "pycma-converge":
+        return run_pycma_converge(case)
     raise ValueError(kind)
 
 
@@ -1586,7 +1739,9 @@ def strata(quick):
         ("lmma", gen_es("lm", False, quick), nontrivial_es, 40, 1000, 1.0),
         ("sepcma", gen_es("sep", False, quick), nontrivial_es, 40, 1000, 1.2),
         ("cma", gen_es("cma", False, quick), nontrivial_es, 40, 1000, 1.6),
+        ("lowdim-many-parents", gen_lowdim(quick), nontrivial_es, 14, 400, 0.8),
         ("pycma", gen_pycma(quick), nontrivial_es, 12, 400, 0.5),
+        ("pycma-converge", gen_pycma_converge(quick), nontrivial_any, 8, 120, 0.6),
     ]
 
 
